@@ -78,6 +78,7 @@ Proof.
   - destruct (_ && _); [|apply L11_refl].
     eapply L11_trans; [apply L11_upd_node|]. eapply L11_trans; [apply L11_notify|(apply L11_emit; intros; reflexivity)].
   - destruct (_ && _); [apply L11_sched_at|apply L11_refl].
+  - destruct (_ && _); [apply L11_sched_at|apply L11_refl].
 Qed.
 
 Lemma L11_do_ops T g i st : forall os opi w, L11 w (do_ops T g i st opi os w).
